@@ -27,7 +27,7 @@ EXPLANATION = (
     "INFEASIBLE only under root-LP infeasible or (no incumbent and heap empty): the node-budget exit must be "
     "discriminated; (O5) the branching step pushes exactly the floor child and the ceil child of one variable; (O6) "
     "root bound tightening is dominated by the explicit-row detector; (O7) the incumbent pair is assigned from a point "
-    "and the cost of that same point, and published together. (O9) the certifier _is_feasible tests every component for non-negativity, every integer variable for integrality and every row; (O10) bound tests prune with the numerical tolerance only. NOT decided: LP numerics, true optimality/feasibility."
+    "and the cost of that same point, and published together. (O9) the certifier _is_feasible tests every component for non-negativity, every integer variable for integrality and every row; (O10) bound tests prune with the numerical tolerance only. (O11) node LP construction, branching variable, children and incumbent update, statement group by statement group. NOT decided: LP numerics, true optimality/feasibility."
 )
 
 MOD = "milp"
@@ -93,6 +93,18 @@ def run(ctx: Ctx):
 
 # -- O1 ------------------------------------------------------------------------------------------
     check_certifier_and_slack(ctx)
+    from .sat_common import _need
+
+    sn = ctx.func("milp", "_solve_node")
+    _need(ctx, "C04-O11", "R18 table", sn, "node LP: variables with equal bounds are substituted, crossed bounds make the node infeasible", ["lo, hi = (lower[j], upper[j])\n        if hi < lo - eps:\n            return Result(None, float('inf') if minimize else float('-inf'), 0, 0, LPStatus.INFEASIBLE)\n        if hi - lo < eps:\n            fixed[j] = lo\n        else:\n            free_vars.append(j)"])
+    _need(ctx, "C04-O11", "R18 table", sn, "node LP: the right-hand side is reduced by the fixed part of each row, bounds become rows -x <= -lo and x <= hi", ["fixed_contrib = sum((row[j] * fixed[j] for j in fixed))\n        new_rhs = b[i] - fixed_contrib\n        A_red.append([row[j] for j in free_vars])\n        b_red.append(new_rhs)", "if lo > eps:\n            row = [0.0] * n_free\n            row[j_new] = -1.0\n            A_red.append(row)\n            b_red.append(-lo)", "if hi < float('inf'):\n            row = [0.0] * n_free\n            row[j_new] = 1.0\n            A_red.append(row)\n            b_red.append(hi)"])
+    _need(ctx, "C04-O11", "R5 PAIRING", sn, "node LP: the full point is rebuilt from fixed and free parts and the fixed part of the objective is added back", ["fixed_obj = sum((c[j] * fixed[j] for j in fixed))", "for j in fixed:\n        full_sol[j] = fixed[j]\n    for j_new, j_old in enumerate(free_vars):\n        full_sol[j_old] = result.solution[j_new]", "return Result(tuple(full_sol), result.objective + fixed_obj, result.iterations, result.iterations, result.status)"])
+    mf = ctx.func("milp", "_most_fractional")
+    _need(ctx, "C04-O11", "R18 table", mf, "branching variable: the integer variable farthest from an integer value; none -> the point is integral", ["for j in int_set:\n        val = solution[j]\n        frac = abs(val - round(val))\n        if frac > eps and frac > best_frac:\n            best_var, best_frac = (j, frac)", "return best_var"])
+    sm = ctx.func("milp", "solve_milp")
+    _need(ctx, "C04-O11", "R16 PAIRED-EFFECTS", sm, "branching: the left child caps the variable at floor(v), the right child raises it to ceil(v); both inherit the node's other bounds and the node's LP value as bound", ["val = result.solution[frac_var]\n        child_bound = sign * result.objective", "lower_left, upper_left = (list(node.lower), list(node.upper))\n        upper_left[frac_var] = floor(val)\n        heappush(tree, (child_bound, counter, Node(child_bound, tuple(lower_left), tuple(upper_left), node.depth + 1)))\n        counter += 1", "lower_right, upper_right = (list(node.lower), list(node.upper))\n        lower_right[frac_var] = ceil(val)\n        heappush(tree, (child_bound, counter, Node(child_bound, tuple(lower_right), tuple(upper_right), node.depth + 1)))\n        counter += 1"])
+    _need(ctx, "C04-O11", "R6 INCUMBENT", sm, "an integral node replaces the incumbent exactly when it is strictly better in the caller's sense", ["sol = tuple(result.solution)\n            sol_obj = result.objective", "if sign * sol_obj < sign * best_obj:\n                best_solution, best_obj = (sol, sol_obj)"])
+
     generic_sweeps(ctx)
 
 
@@ -526,6 +538,11 @@ def _v_round_no_gate(tree):
     M.replace_stmt(g, lambda s: isinstance(s, ast.If) and M.src_has(s.test, "not _is_feasible(sol"), [])
 
 
+def _v_right_child_keeps_lower(tree):
+    g = M.find_func(tree, "solve_milp")
+    M.replace_stmt(g, lambda s: M.src_is(s, "lower_right[frac_var] = ceil(val)"), M.stmts("upper_right[frac_var] = ceil(val)"))
+
+
 def _v_sign_test_integers_only(tree):
     g = M.find_func(tree, "_is_feasible")
     M.replace_stmt(g, lambda s: isinstance(s, ast.If) and M.src_has(s.test, "x[j] < -eps"), [])
@@ -575,6 +592,7 @@ VARIANTS = [
     M.Variant("rounding heuristic returns unchecked vector", ML, _v_round_no_gate, "C04-O3"),
     M.Variant("_is_feasible tests the sign of integer variables only (seed C04-E)", ML, _v_sign_test_integers_only, "C04-O9"),
     M.Variant("nodes pruned with slack 1 - eps when all costs are integers (seed C04-F)", ML, _v_integral_cutoff, "C04-O10"),
+    M.Variant("right child caps instead of raising the branching variable", ML, _v_right_child_keeps_lower, "C04-O11"),
     M.Variant("twin: reformat", ML, _t_reformat, None),
     M.Variant("twin: rename bound locals", ML, _t_rename, None),
     M.Variant("twin: status conditional written the other way", ML, _t_flag_status, None),
